@@ -89,6 +89,9 @@ def units(ctx, which):
         for part in range(8 if ctx.thorough else 4):
             us.append(("auer_het", K, part, 8 if ctx.thorough else 4, ctx.seed, ctx.thorough, which))
     us.append(("sens3", which, ctx.thorough))
+    from checks import hist
+
+    us = hist.units(ctx, which) + us  # long units first (pool balance)
     n_iv = len(INTERVALS) if ctx.thorough else 5
     for alg, spec in ([("EpsilonPAL", None)] + ([("VOGP", ("comp", 2)), ("VOGP", ("theta", 60)), ("PaVeBaGP-IH", ("comp", 2))] if ctx.thorough else [("VOGP", ("theta", 60))])):
         for first in range(n_iv * n_iv):
@@ -502,6 +505,10 @@ def run_unit(unit):
         run_os3(unit, res)
     elif unit[0] == "sens3":
         run_sens3(unit, res)
+    elif unit[0] == "hist":
+        from checks import hist
+
+        hist.run_hist(unit, res)
     else:
         run_auer_het(unit, res)
     return res
@@ -516,6 +523,13 @@ def _fix(u):
 
 def replay_case(case):
     res = core.new_result()
+    if case["mode"] == "hist":
+        from checks import hist, reach
+
+        uu = list(case["unit"])
+        uu[3] = reach._fix_spec(uu[3])
+        hist.run_hist(tuple(uu), res, replay=case["path"])
+        return res["violations"]
     u = _fix(case["unit"])
     if case["mode"] == "os3":
         uu = list(case["unit"])
